@@ -594,8 +594,15 @@ class ViewParameter(AbstractParameter, ParameterListener):
 
     @tensor.setter
     def tensor(self, tensor: Tensor) -> None:
-        self.parameter.tensor[..., self.indices] = tensor
-        self.parameter.fire_parameter_changed()
+        if isinstance(self.parameter, Parameter):
+            self.parameter.tensor[..., self.indices] = tensor
+            self.parameter.fire_parameter_changed()
+        else:
+            # the tensor of a derived parameter is a cached value: go through
+            # its own setter so that the parameters it is computed from change
+            value = self.parameter.tensor.clone()
+            value[..., self.indices] = tensor
+            self.parameter.tensor = value
 
     @property
     def shape(self) -> torch.Size:
